@@ -51,6 +51,7 @@ type Case struct {
 	Trace   []string          // verbose trace (only kept when Verbose or on violation)
 	Inconcl string            // non-empty: case was inconclusive for this reason
 	Raced   bool              // the race detector reported a race while this case's bubble ran
+	Poisoned bool             // the bubble ended in a deadlock panic; blocked goroutines remain in the process
 }
 
 func (c *Case) Hit(rule string)            { c.Rules[rule]++ }
@@ -92,6 +93,10 @@ func (c *Case) Bubble(f func()) (panicText string) {
 				if !strings.HasPrefix(panicText, "deadlock:") {
 					panicText += "\n" + string(debug.Stack())
 				} else {
+					// goroutines of this bubble stay behind, blocked for ever; the
+					// runtime does not cope well with a process that goes on to run
+					// more bubbles, so the worker exits after this case.
+					c.Poisoned = true
 					// list the goroutines of the bubble that are still blocked
 					buf := make([]byte, 4<<20)
 					buf = buf[:runtime.Stack(buf, true)]
@@ -256,6 +261,14 @@ func runWorker(t *testing.T) {
 		out.Write(append(b, '\n'))
 		if clog != nil {
 			fmt.Fprintf(clog, "end %d\n", i)
+		}
+		if c.Poisoned && i+1 < to {
+			// leave without the "done" marker: the driver starts a fresh worker at case i+1
+			out.Sync()
+			if clog != nil {
+				clog.Sync()
+			}
+			os.Exit(0)
 		}
 	}
 	if clog != nil {
